@@ -5,7 +5,7 @@ check of its property in scratch mode (evidence untouched), undoes the change, a
 seed was accepted)."""
 import os, re, sys, json, subprocess, glob
 ROOT = os.path.dirname(os.path.dirname(os.path.abspath(__file__)))
-EXTRA = {'C01-6': ['C13'], 'C12-5': ['C01'], 'C08-5': ['C16'], 'C08-6': ['C13'], 'C10-4': ['C06'], 'C19-4': ['C09'], 'C13-4': ['C02'], 'C01-3': ['C13'], 'C08-3': ['C13'], 'C12-4': ['C13'], 'C05-4': ['C18'], 'C06-4': ['C18'], 'C04-1': ['C13', 'C01'], 'C01-1': ['C13'], 'C08-1': ['C09'], 'C08-2': ['C09'], 'C05-2': ['C02'], 'C06-1': ['C03']}
+EXTRA = {'C04-5': ['C13'], 'C09-6': ['C08'], 'C11-5': ['C01'], 'C13-6': ['C04'], 'C13-5': ['C04'], 'C19-6': ['C01'], 'C03-6': ['C02'], 'C01-6': ['C13'], 'C12-5': ['C01'], 'C08-5': ['C16'], 'C08-6': ['C13'], 'C10-4': ['C06'], 'C19-4': ['C09'], 'C13-4': ['C02'], 'C01-3': ['C13'], 'C08-3': ['C13'], 'C12-4': ['C13'], 'C05-4': ['C18'], 'C06-4': ['C18'], 'C04-1': ['C13', 'C01'], 'C01-1': ['C13'], 'C08-1': ['C09'], 'C08-2': ['C09'], 'C05-2': ['C02'], 'C06-1': ['C03']}
 
 def section(txt, *names):
     for n in names:
